@@ -7,7 +7,7 @@ V=$(cd "$(dirname "$0")/.." && pwd)
 S=/tmp/seedrun.$$
 mkdir -p $S
 git -C /repo worktree add -f --detach $S/repo HEAD -q
-if ! git -C $S/repo apply "$PATCH"; then echo "PATCH-DOES-NOT-APPLY"; git -C /repo worktree remove --force $S/repo; rm -rf $S; exit 3; fi
+if ! git -C $S/repo apply "$PATCH" 2>/dev/null && ! git -C $S/repo apply --3way "$PATCH"; then echo "PATCH-DOES-NOT-APPLY"; git -C /repo worktree remove --force $S/repo; rm -rf $S; exit 3; fi
 rsync -a --exclude .git $V/ $S/verif/
 export ZN_REPO=$S/repo
 cd $S/verif
